@@ -200,7 +200,8 @@ def run(ctx):
             ctx.fail("the result depends on the builder's history (same builder twice / fresh builder differ)", info)
         if len(reqs_seen) % 4 == 0:
             hist.check(key, lambda: I.es.ElasticsearchQueryBuilder(**cfg),
-                       lambda bb, t: es.build(cfg, t, bb)[0], d, info)
+                       lambda bb, t: es.build(cfg, t, bb)[0], d, info,
+                       poison=[es.refused_in_nested(schema)] if schema else ())
         reqs_seen.append(1)
     after = class_state(I)
     if after != before:
